@@ -401,6 +401,13 @@ func runEntry(l *loaded, entry string, workers int, tier string, solverBin strin
 							// a solver glitch (z3 4.8.12 lets the timer of a finished check-sat cancel the next
 							// command: "push canceled") desynchronises the pipe: restart the solver and re-run this
 							// path along the decisions already taken (alternatives are queued already)
+							if h, isHang := r.(solverHang); isHang {
+								sh.mu.Lock()
+								sh.Aborted["solver: "+string(h)+" (process killed, path given up)"]++
+								sh.mu.Unlock()
+								s.Restart()
+								return
+							}
 							for try := 0; try < 3; try++ {
 								g, isGlitch := r.(solverGlitch)
 								if !isGlitch {
